@@ -70,6 +70,24 @@ def generate(rng, tier):
         for st in steps:
             if (st.get('want') or '').startswith('tb') and rng.random() < 0.15:
                 st['want_indent'] = rng.choice([2, 4])      # a want written deeper than its prompt
+        if rng.random() < 0.12 and not any(st['form'] == 'directive' for st in steps):
+            # a flag switched on for one statement -- by a comment on a line of its own inside the
+            # statement's brackets, or at the end of a line -- is off again for the next statement:
+            # the same kind of want must fail there
+            pfx = None
+            for st in steps:
+                if st.get('pts'):
+                    pfx = st['pts'][0].split('s')[0]
+                    break
+            if pfx:
+                b = max(st['i'] for st in steps) + 1
+                wk = rng.choice(['tbwrongmsg', 'tbdetail'])
+                first = {'i': b, 'form': 'multiline', 'pts': ['%ss%da' % (pfx, b)], 'ps2': True, 'sep': 'blank',
+                         'want': wk, 'exc': {'exc': 'ValueError', 'msg': 'first ' + W.tok('%ss%da' % (pfx, b))},
+                         'inline': [['+', 'IGNORE_EXCEPTION_DETAIL', None]], 'inline_at': rng.choice(['own', 'own', 'last', 'first'])}
+                second = {'i': b + 1, 'form': rng.choice(['expr', 'multiline']), 'pts': ['%ss%da' % (pfx, b + 1)], 'ps2': True, 'sep': rng.choice(['none', 'blank']),
+                          'want': wk, 'exc': {'exc': 'ValueError', 'msg': 'second ' + W.tok('%ss%da' % (pfx, b + 1))}}
+                steps.extend([first, second])
         gen.fix_chunk_starts(steps)
     # wants that need a flag to match are left as they are: then they must fail
     ids = gen.doctest_ids(world)
